@@ -55,6 +55,14 @@ Definition change_of_path (A : list (list bool)) (last : option Z) (c : Z) (p : 
       else [CModify p oldn newn (hunks A last c seq 0 0 0)]
   end.
 
+(* the path is touched by the replay (its change list is not empty) *)
+Definition touched (A : list (list bool)) (last : option Z) (c : Z) (seq : list line) : bool :=
+  match old_exists A last seq, path_exists A c seq with
+  | false, false => false
+  | true, true => negb (forallb (fun l => match lstatus A last c l with LDel | LIns => false | _ => true end) seq)
+  | _, _ => true
+  end.
+
 Definition changes_of (h : hist) (A : list (list bool)) (last : option Z) (c : Z) : list change :=
   flat_map (fun pl => change_of_path A last c (fst pl) (snd pl)) (h_paths h).
 
@@ -68,6 +76,12 @@ Fixpoint vec_eqb (a b : list bool) : bool :=
   match a, b with
   | [], [] => true
   | x :: a', y :: b' => Bool.eqb x y && vec_eqb a' b'
+  | _, _ => false
+  end.
+Fixpoint vec_leb (a b : list bool) : bool :=
+  match a, b with
+  | [], [] => true
+  | x :: a', y :: b' => implb x y && vec_leb a' b'
   | _, _ => false
   end.
 Definition vec_get (v : list bool) (i : Z) : bool := znth false v i.
@@ -105,8 +119,9 @@ Definition pstep (h : hist) (A : list (list bool)) (n : nat)
             let live' := aset (ps_live s) b (mkPB set' (Some c)) in
             if is_merge_at before_rev after c then
               (* merge mode: the branch's last commit is a parent, the group is contiguous *)
+              (* ... and holds only ancestors of the merge commit, which has several parents *)
               let ok_parent := match pb_last pb with Some l => memz l (parents_of h c) | None => false end in
-              if negb ok_parent then None
+              if negb (ok_parent && vec_leb (pb_set pb) (znth [] A c) && (2 <=? Z.of_nat (length (parents_of h c)))) then None
               else match ps_pend s with
                    | None => Some (mkPS live' (ps_seen s) (ps_done s) (Some (c, [b])))
                    | Some (m, bs) => if (m =? c) && negb (memz b bs)
